@@ -10,7 +10,8 @@ var svcSuites = []string{"Ed25519", "P256", "bn256.G1", "bn256.G2", "bn256.adapt
 func sp(s string) *string { return &s }
 
 var addrs = []string{"tcp://10.0.0.1:2000", "tls://10.0.0.2:7770", "local://127.0.0.1:2000", "tls://conode.example.org:443",
-	"tcp://[::1]:2002", "tls://[2001:db8::1]:7000", "tcp://10.0.0.1:65535", "tls://10.0.0.3"}
+	"tcp://[::1]:2002", "tls://[2001:db8::1]:7000", "tcp://10.0.0.1:65535", "tls://10.0.0.3",
+	"tls://localhost:7770", "tls://no-such-host.invalid:7770"}
 
 var descs = []string{"a conode", "", "Nikkolasg's server: spreading the love of singing", "quote \" backslash \\ done",
 	"unicode: é 名前 ✓", "line\nbreak", "# not a comment", "Description of your server"}
@@ -277,6 +278,10 @@ func generate(rng *rand.Rand, tier string) []interface{} {
 
 func corpus() []interface{} {
 	return []interface{}{
+		// regression (passes on the pinned code): TLS key, no URL, address given by NAME -- the
+		// URL is built from the written host name, whatever the reading process resolves it to
+		input{Kind: "private", Label: "no-service", Servers: []serverIn{{Addr: "tls://localhost:7770", Suite: "Ed25519", Key: 7,
+			Desc: sp("by name"), TLSKey: "string://key"}}},
 		// a roster file has no place for per-service keys (format limitation, observation): they are
 		// expected NOT to come back; the written ID field must
 		input{Kind: "rosterfile", Label: "full", Servers: []serverIn{{
